@@ -189,8 +189,9 @@ def run(ctx):
                           "a stream is handed to the application on `send_id %s sent_closing` after a GOAWAY was sent" % rel, "", None, p.describe())
                 st = [e for e in p.stores() if "last_accepted_stream" in pa.vfmt(e[4])]
                 ins = p.calls("::insert")
-                ok = len(st) == 1 and expr.mentions(st[0][3], is_id) and len(ins) == 1 and is_id(ins[0][3][1]) and "ongoing_streams" in pa.vfmt(ins[0][3][0])
-                ctx.check(ok, "C08-b", ac.key, "served stream is remembered (last_accepted_stream, ongoing_streams)",
+                # (that the stream is also entered into ongoing_streams is C09's clause, not a GOAWAY-identifier matter)
+                ok = len(st) == 1 and expr.mentions(st[0][3], is_id)
+                ctx.check(ok, "C08-b", ac.key, "served stream is remembered (last_accepted_stream)",
                           "a returned stream is not recorded: last_accepted=%s inserts=%s" % ([pa.vfmt(e[3]) for e in st], [pa.vfmt(e[3][1]) for e in ins]), "")
             else:
                 ctx.violation("C08-b", ac.key, "accepted stream neither served nor rejected",
